@@ -80,6 +80,10 @@ def build_layout(root: str, variant: dict):
         ("f", f"home/.octave/standards/{BAD_DIGEST[:16]}.oct.md", BAD_STD, 0o644),
         ("f", "home/.octave/standards/default.oct.md", GOOD_STD, 0o644),
         ("f", "home/.octave/secret.oct.md", SECRET, 0o600),
+        # links below HOME: an argument that gets '~' expanded AND canonicalised before validation walks through these
+        ("l", "home/ln_out", os.path.join(root, "out/secretdir") if absl else "../out/secretdir"),
+        ("l", "home/ln_file.oct.md", os.path.join(root, "out/secret.oct.md") if absl else "../out/secret.oct.md"),
+        ("d", "home/plain", 0o755),
         # a project directory with schema directories (cwd for schema-name runs)
         ("d", "proj/specs/schemas/sub", 0o755), ("d", "proj/src/octave_mcp/resources/specs/schemas", 0o755),
         ("f", "proj/specs/schemas/a.oct.md", _schema_text("A"), 0o644),
@@ -115,7 +119,7 @@ def _schema_text(name: str) -> bytes:
 
 
 DIR_SEGS = ["docs", "dir", "dir/deep", "newdir", ".", "..", "ln_dir_in", "ln_dir_out", "dangling_dir", "chain1", "loop",
-            "docs/ln_up", "docs/ln_out", "", "vocab", "~", "$HOME", "${HOME}", "~root", "\uff44\uff4f\uff43\uff53", "cafe\u0301", "\u212bdir", "\uff0e\uff0e", "\u2024\u2024"]
+            "docs/ln_up", "docs/ln_out", "", "vocab", "~", "$HOME", "${HOME}", "~root", "~/ln_out", "~/plain", "~/plain/..", "$OVHOME/ln_out", "\uff44\uff4f\uff43\uff53", "cafe\u0301", "\u212bdir", "\uff0e\uff0e", "\u2024\u2024"]
 FINAL_SEGS = ["a.oct.md", "new.oct.md", "new.octave", "new.md", "b.md", "c.octave", "top.oct.md", "new.txt", "notes.txt",
               "new.oct.md.bak", "new.tar.md", "new.oct.MD", "NEW.OCT.MD", "new.md.", "new", "new.oct.md/", "ln_file_in.oct.md",
               "ln_file_out.oct.md", "dangling.oct.md", "dangling_out.oct.md", "dangling2.md", "loop.oct.md", "", "a\x00b.oct.md",
@@ -123,7 +127,7 @@ FINAL_SEGS = ["a.oct.md", "new.oct.md", "new.octave", "new.md", "b.md", "c.octav
               "new.m\u0501", "new.oct.md\u200b", "new.\uff2d\uff24", "new.md\n", "new.md\t", "x..md", ".oct.md", "new.octave.", "new.OCTAVE",
               "new.oct.md.", "new.md/.", "new.md/..", "new.txt/../new.md", "new.md\\", "new.oct", "new.octave.txt", "new.mdx", "newmd",
               "new.oct.md~", "new.md;x.txt", "new.md%00.txt", "caf\u00e9.md", "cafe\u0301.md",
-              "~.oct.md", " new.oct.md", "new.oct.md\r", "$OVHOME.oct.md", "note.oct.\uff4d\uff44", "note.\uff4d\uff44", "note\uff0emd", "note.m\u217e", "\ufb01le.oct.md", "note.md\u0301", "note.oct\u2024md"]
+              "~.oct.md", "ln_file.oct.md", " new.oct.md", "new.oct.md\r", "$OVHOME.oct.md", "note.oct.\uff4d\uff44", "note.\uff4d\uff44", "note\uff0emd", "note.m\u217e", "\ufb01le.oct.md", "note.md\u0301", "note.oct\u2024md"]
 
 
 def gen_path(t: Tape) -> dict:
